@@ -151,6 +151,40 @@ REG['C08'] = dict(
     'kinds, schedule, fired faults); non-trivial = at least one recorded '
     'instant compared with the documented law')
 
+_DECL = ('declaration machine: a pool of elements of every kind, 1..30 '
+         'declaration calls (valid, re-routing, and one injected rejection of '
+         'every documented kind), public relation state dumped before and '
+         'after every call, then Powertrain(motor), immutability probes and '
+         'post-assembly re-declarations; ')
+REG['C10'] = dict(
+    oracle='c10', profiles=[('decl', 1, None)],
+    quick=6000, thorough=300000,
+    vacuity=['decls_judged', 'accepted', 'rejected', 'rerouting',
+             'accepted_joint', 'accepted_gear', 'accepted_worm',
+             'self_locking_True', 'self_locking_False',
+             'F_REJECT_self', 'F_REJECT_motor_slave', 'F_REJECT_eff_range',
+             'F_REJECT_eff_type', 'F_REJECT_f_range', 'F_REJECT_f_type',
+             'F_REJECT_module', 'F_REJECT_helix', 'F_REJECT_spur_helical',
+             'F_REJECT_alpha', 'F_REJECT_worm_worm', 'F_REJECT_wheel_wheel',
+             'F_REJECT_not_gear', 'F_REJECT_not_worm',
+             'F_REJECT_worm_eff_range'],
+    rule=_DECL + 'distinct = (element kinds, rejection kinds that occurred, '
+    're-routing seen); non-trivial = at least one declaration judged by the '
+    'declaration model',
+    stubs=['none (declaration calls only)'])
+REG['C20'] = dict(
+    oracle='c20', profiles=[('decl', 1, None)],
+    quick=6000, thorough=300000,
+    vacuity=['assemblies', 'motor_drives_nothing', 'duplicate_names_in_chain',
+             'duplicate_names_outside_chain', 'self_locking_True',
+             'self_locking_False', 'rerouted_before_assembly',
+             'immutability_probes', 'redeclared_after_assembly',
+             'chain_len_2', 'chain_len_5', 'chain_len_8'],
+    rule=_DECL + 'distinct = (element kinds, chain length, duplicate-name '
+    'case); non-trivial = an assembly was judged against the chain walk of '
+    'the declaration model',
+    stubs=['none (declaration calls only)'])
+
 NOT_APPLICABLE = [
     {'property_id': 'C05',
      'reason': 'stateless function of (value, from-unit, to-unit): no schedule, clock, fault, I/O or history for a simulator to act on; its quantifier is decided by exhaustive enumeration of unit pairs, a different technique (DESIGN.md section 6)'},
